@@ -247,8 +247,9 @@ def cause_tag(case, whole):
             except Exception as e:  # noqa
                 b = ["ERR", exc_enum(e)]
             if a != b:
-                bom = whole[:4] in (b"\xff\xfe\x00\x00", b"\x00\x00\xfe\xff") or whole[:2] in (b"\xff\xfe", b"\xfe\xff") \
-                    or whole[:3] == b"\xef\xbb\xbf"
+                boms = {"utf-16": (b"\xff\xfe", b"\xfe\xff"), "utf-32": (b"\xff\xfe\x00\x00", b"\x00\x00\xfe\xff"),
+                        "utf-8-sig": (b"\xef\xbb\xbf",)}.get(name, ())
+                bom = any(whole.startswith(x) for x in boms)
                 return "cpython-codec-inconsistent:%s:%s" % (name, "bom" if bom else "no-bom")
     except Exception:  # noqa
         pass
